@@ -24,6 +24,7 @@ def sweep(run, repeat=1):
     us = D.enum_usages(run.tier, run.rng)
     ua = [(ls, wo, D.argvs_for(wo, run.tier)) for ls, wo in us]
     fam = D.family_usages()
+    nfam0 = len(ua)
     ua += fam
     us = us + [(ls, wo) for ls, wo, _ in fam]
     ref = D.run_reference(ua)
@@ -31,11 +32,11 @@ def sweep(run, repeat=1):
     impl = D.run_impl(cases, repeat=repeat)
     recs = []
     i = 0
-    for (ls, wo, avs), rr in zip(ua, ref):
+    for ui, ((ls, wo, avs), rr) in enumerate(zip(ua, ref)):
         cl = classes_of(ls)
         utxt = " || ".join(D.show(l) for l in ls)
         for av, r in zip(avs, rr):
-            recs.append(dict(lines=ls, with_opts=wo, usage=utxt, classes=cl, argv=av, ref=r, outs=impl[i]))
+            recs.append(dict(lines=ls, with_opts=wo, usage=utxt, classes=cl, argv=av, ref=r, outs=impl[i], family=(ui >= nfam0)))
             i += 1
     return recs, len(us)
 
@@ -209,14 +210,15 @@ def c09(run, replay=None):
     recs, nus = sweep(run)
     classify(recs)
     rep = 8 if run.tier == "quick" else 32
-    cand = [r for r in recs if "ok" in r["outs"][0] or (r["ref"] and r["ref"]["matches"])]
-    rest = [r for r in recs if not ("ok" in r["outs"][0] or (r["ref"] and r["ref"]["matches"]))]
+    famrecs = [r for r in recs if r.get("family")]       # the targeted families are re-parsed in full, never sampled away
+    cand = [r for r in recs if not r.get("family") and ("ok" in r["outs"][0] or (r["ref"] and r["ref"]["matches"]))]
+    rest = [r for r in recs if not r.get("family") and not ("ok" in r["outs"][0] or (r["ref"] and r["ref"]["matches"]))]
     na, nr = (12000, 3000) if run.tier == "quick" else (200000, 50000)
     if len(cand) > na:
         cand = run.rng.sample(cand, na)
     if len(rest) > nr:
         rest = run.rng.sample(rest, nr)
-    chosen = cand + rest
+    chosen = famrecs + cand + rest
     outs = D.run_impl([(D.script_text(r["lines"], r["with_opts"]), r["argv"]) for r in chosen], repeat=rep)
     multi = 0
     ambiguous = 0
